@@ -160,8 +160,12 @@ Qed.
 Lemma path_qs_eq e : path_qs e = url_quote (e_script e ++ e_path e) ++ qs_part (e_qs e).
 Proof. unfold path_qs, qs_part. rewrite url_quote_app, <- app_assoc. destruct (e_qs e); reflexivity. Qed.
 
-Lemma request_line_eq e : request_line e = e_method e ++ [32] ++ path_qs e ++ [32] ++ e_proto e.
-Proof. unfold request_line, url. rewrite skipn_length_app. reflexivity. Qed.
+Lemma request_line_eq e : path_qs e <> [] ->
+  request_line e = e_method e ++ [32] ++ path_qs e ++ [32] ++ e_proto e.
+Proof.
+  intros H. unfold request_line, request_target, url. rewrite skipn_length_app.
+  destruct (path_qs e); [contradiction|reflexivity].
+Qed.
 
 (* ------------------------------------------------------------------ parsing a serialised request *)
 Lemma no_lf_line0 m target ver : all_vis m -> all_vis target -> all_vis ver ->
@@ -170,17 +174,17 @@ Proof.
   intros Hm Ht Hv. repeat apply no_lf_app; try (apply all_vis_no_lf; assumption); repeat constructor; discriminate.
 Qed.
 
-Lemma req_parse text conv m target ver items (tl : list str) X :
+Lemma req_parse text conv cw m target ver items (tl : list str) X :
   m <> [] -> all_vis m -> target <> [] -> all_vis target -> has_scheme target = false ->
   ver <> [] -> all_vis ver ->
   Forall (fun p => good_hname (fst p) /\ good_hvalue (snd p)) items ->
   NoDup (map (fun p => trans_name (fst p)) items) ->
   (tl = [] /\ X = [] \/ tl = [[]; X]) ->
-  req_from_file text conv (join CRLF ((m ++ [32] ++ target ++ [32] ++ ver) :: map hline items ++ tl)) =
+  req_from_file text conv cw (join CRLF ((m ++ [32] ++ target ++ [32] ++ ver) :: map hline items ++ tl)) =
   let '(p, _, q) := partition_c 63 target in
-  let e0 := mkEnv (upper m) [] (url_unquote p) q ver (A "http") (A "localhost") (A "80")
+  let e0 := mkEnv m [] (url_unquote p) q ver (A "http") (A "localhost") (A "80")
                   (map to_entry items) [] true false in
-  let '(raw, s3) := read_body (content_length e0) X in
+  let '(raw, s3) := read_body cw (content_length e0) X in
   match conv raw with
   | Er x => Er x
   | Ok body => Ok (set_body e0 body, s3)
@@ -273,7 +277,7 @@ Proof. intros Hs Ha Hb. unfold host_url. rewrite Ha, Hb, Hs. reflexivity. Qed.
 
 Lemma request_line_set_body e b : request_line (set_body e b) = request_line e.
 Proof.
-  unfold request_line, url, path_qs.
+  unfold request_line, request_target, url, path_qs.
   assert (H : host_url (set_body e b) = host_url e).
   { unfold host_url, set_body. cbn [e_scheme e_hdrs e_sname e_sport].
     rewrite dict_get_set_other by apply k_CL_HOST. reflexivity. }
@@ -294,15 +298,6 @@ Proof.
   - unfold acquire. rewrite Hr. cbn [negb]. rewrite app_nil_r. reflexivity.
 Qed.
 
-Lemma read_body_exact (body extra : bytes) :
-  read_body (Some (Z.of_nat (length body))) (body ++ extra) = (body, extra).
-Proof.
-  unfold read_body. destruct (Z.ltb_spec (Z.of_nat (length body)) 0); [lia|]. cbn [orb].
-  destruct (Z.leb_spec (Z.of_nat (length (body ++ extra))) (Z.of_nat (length body))) as [Hle|Hgt].
-  - rewrite app_length in Hle. destruct extra; [rewrite app_nil_r; reflexivity|cbn [length] in Hle; lia].
-  - rewrite Nat2Z.id, firstn_length_app, skipn_length_app. reflexivity.
-Qed.
-
 Lemma acquire_set_body e0 body :
   acquire (set_body e0 body) = Ok (set_body e0 body, body).
 Proof.
@@ -318,7 +313,7 @@ Qed.
 (* ------------------------------------------------------------------ the request after re-parsing *)
 (* what from_file builds from the serialisation of e1 when it reads [body] *)
 Definition reparsed (e1 : env) (body : bytes) : env :=
-  set_body (mkEnv (upper (e_method e1)) [] (e_script e1 ++ e_path e1) (e_qs e1) (e_proto e1)
+  set_body (mkEnv (e_method e1) [] (e_script e1 ++ e_path e1) (e_qs e1) (e_proto e1)
                   (A "http") (A "localhost") (A "80")
                   (map to_entry (sort_items (hdr_items (e_hdrs e1)))) [] true false) body.
 
@@ -343,24 +338,24 @@ Proof.
 Qed.
 
 (* parsing the serialisation of a well-formed request whose body part in the stream is X *)
-Lemma parse_serialised text conv e (tl : list str) X :
+Lemma parse_serialised text conv cw e (tl : list str) X :
   wf_request e -> (tl = [] /\ X = [] \/ tl = [[]; X]) ->
-  req_from_file text conv
+  req_from_file text conv cw
     (join CRLF (request_line e :: map hline (sort_items (hdr_items (e_hdrs e))) ++ tl)) =
-  let e0 := mkEnv (upper (e_method e)) [] (e_script e ++ e_path e) (e_qs e) (e_proto e)
+  let e0 := mkEnv (e_method e) [] (e_script e ++ e_path e) (e_qs e) (e_proto e)
                   (A "http") (A "localhost") (A "80")
                   (map to_entry (sort_items (hdr_items (e_hdrs e)))) [] true false in
-  let '(raw, s3) := read_body (content_length e0) X in
+  let '(raw, s3) := read_body cw (content_length e0) X in
   match conv raw with
   | Er x => Er x
   | Ok body => Ok (set_body e0 body, s3)
   end.
 Proof.
   intros W Htl. destruct (wf_target e W) as [Ht1 [Ht2 Ht3]].
-  destruct (wf_method e W) as [Hm1 [Hm2 _]]. destruct (wf_proto e W) as [Hv1 Hv2].
+  destruct (wf_method e W) as [Hm1 Hm2]. destruct (wf_proto e W) as [Hv1 Hv2].
   destruct (reparse_entries _ (wf_hdrs e W)) as [_ [_ [_ Hnd]]].
-  rewrite request_line_eq.
-  rewrite (req_parse text conv (e_method e) (path_qs e) (e_proto e) _ tl X); try assumption.
+  rewrite request_line_eq by assumption.
+  rewrite (req_parse text conv cw (e_method e) (path_qs e) (e_proto e) _ tl X); try assumption.
   2:{ apply wf_items. assumption. }
   destruct (wf_path e W) as [_ Hb].
   rewrite path_qs_eq. destruct (target_partition (e_script e ++ e_path e) (e_qs e) Hb) as [f Ef].
@@ -390,9 +385,7 @@ Lemma reparsed_observations e1 body :
 Proof.
   intros W Hset. destruct (reparsed_clen e1 W) as [Hcl Hhost].
   destruct (reparse_entries _ (wf_hdrs e1 W)) as [Hok _].
-  destruct (wf_method e1 W) as [_ [_ Hup]].
-  repeat split.
-  - unfold reparsed, set_body. cbn [e_method]. assumption.
+  split; [reflexivity|]. repeat split.
   - unfold url. f_equal.
     + destruct (wf_host e1 W) as [h Hh].
       apply (host_url_ext _ _ h).
@@ -427,7 +420,7 @@ Proof.
   destruct (reparsed_clen e1 W) as [Hcl _].
   split.
   - unfold from_bytes.
-    rewrite (parse_serialised false conv_id e1 _ body W).
+    rewrite (parse_serialised false conv_id one_byte e1 _ body W).
     2:{ destruct body; [left; split; reflexivity|right; reflexivity]. }
     cbv zeta. unfold content_length at 1. cbn [e_hdrs]. rewrite Hcl.
     unfold settled in Hset. destruct (dict_get k_CL (e_hdrs e1)) as [v|] eqn:Ev.
@@ -453,7 +446,7 @@ Theorem request_consumed_exactly : forall e e1 body extra,
   acquire e = Ok (e1, body) -> wf_request e1 -> settled e1 body -> body <> [] ->
   exists b,
     as_bytes SkipNo e = Ok (b, e1) /\
-    req_from_file false conv_id (b ++ extra) = Ok (reparsed e1 body, extra) /\
+    req_from_file false conv_id one_byte (b ++ extra) = Ok (reparsed e1 body, extra) /\
     (extra <> [] -> from_bytes (b ++ extra) = Er e_Value).
 Proof.
   intros e e1 body extra Hacq W Hset Hb.
@@ -462,7 +455,7 @@ Proof.
   destruct body as [|c0 body0]; [contradiction|].
   eexists. split; [rewrite as_bytes_no, Hacq, Hline; reflexivity|].
   set (body := c0 :: body0) in *.
-  assert (Hparse : req_from_file false conv_id
+  assert (Hparse : req_from_file false conv_id one_byte
             (join CRLF (request_line e1 :: map hline (sort_items (hdr_items (e_hdrs e1))) ++ [[]; body]) ++ extra)
           = Ok (reparsed e1 body, extra)).
   { replace (request_line e1 :: map hline (sort_items (hdr_items (e_hdrs e1))) ++ [[]; body])
@@ -472,55 +465,57 @@ Proof.
     replace (((request_line e1 :: map hline (sort_items (hdr_items (e_hdrs e1)))) ++ [[]]) ++ [body ++ extra])
       with (request_line e1 :: map hline (sort_items (hdr_items (e_hdrs e1))) ++ [[]; body ++ extra])
       by (rewrite <- app_assoc; reflexivity).
-    rewrite (parse_serialised false conv_id e1 _ (body ++ extra) W) by (right; reflexivity).
+    rewrite (parse_serialised false conv_id one_byte e1 _ (body ++ extra) W) by (right; reflexivity).
     cbv zeta. destruct (reparsed_clen e1 W) as [Hcl _].
     unfold content_length at 1. cbn [e_hdrs]. rewrite Hcl.
     unfold settled in Hset. destruct (dict_get k_CL (e_hdrs e1)) as [v|] eqn:Ev; [|discriminate].
     subst v. rewrite parse_dec_len, read_body_exact. reflexivity. }
   split; [exact Hparse|].
   intros Hex. unfold from_bytes.
-  match goal with |- context [req_from_file ?a ?b ?c] =>
-    replace (req_from_file a b c) with (@Ok (env * str) (reparsed e1 body, extra)) by (symmetry; exact Hparse) end.
+  match goal with |- context [req_from_file ?a ?b ?w ?c] =>
+    replace (req_from_file a b w c) with (@Ok (env * str) (reparsed e1 body, extra)) by (symmetry; exact Hparse) end.
   destruct extra; [contradiction|reflexivity].
 Qed.
 
-(* a text file carrying the same request: the body as text t *)
-Theorem request_text_roundtrip : forall conv e1 body t,
-  wf_request e1 -> settled e1 body -> conv t = Ok body -> (length t <= length body)%nat ->
-  (body = [] -> t = []) ->
-  req_from_file true conv (request_head e1 ++ match body with [] => [] | _ => CRLF ++ CRLF ++ t end)
-  = Ok (reparsed e1 body, []).
+(* a text file carrying the same request: the body as text t that encodes (character widths cw) to
+   exactly the body's length in bytes, followed by anything *)
+Theorem request_text_roundtrip : forall conv cw e1 body t extra,
+  wf_request e1 -> settled e1 body -> body <> [] -> conv t = Ok body ->
+  sane_widths cw t -> text_width cw t = length body ->
+  req_from_file true conv cw (request_head e1 ++ CRLF ++ CRLF ++ t ++ extra) = Ok (reparsed e1 body, extra).
 Proof.
-  intros conv e1 body t W Hset Hc Hlen Hnil.
+  intros conv cw e1 body t extra W Hset Hb Hc Hw Hlen.
   destruct (reparsed_clen e1 W) as [Hcl _]. unfold request_head.
-  destruct body as [|c0 body0].
-  - rewrite (Hnil eq_refl) in Hc. rewrite app_nil_r.
-    rewrite <- (app_nil_r (map hline (sort_items (hdr_items (e_hdrs e1))))).
-    rewrite (parse_serialised true conv e1 [] [] W) by (left; split; reflexivity).
-    cbv zeta. unfold content_length at 1. cbn [e_hdrs]. rewrite Hcl.
-    unfold settled in Hset. destruct (dict_get k_CL (e_hdrs e1)) as [v|] eqn:Ev.
-    + subst v. rewrite parse_dec_len. cbn [length Z.of_nat read_body]. cbn. rewrite Hc. reflexivity.
-    + cbn. rewrite Hc. reflexivity.
-  - set (body := c0 :: body0) in *.
-    assert (HL : forall (L : list str) x y, L <> [] -> join CRLF L ++ CRLF ++ x ++ CRLF ++ y = join CRLF (L ++ [x; y])).
-    { clear. induction L as [|l L IH]; intros x y HL; [contradiction|].
-      destruct L as [|l2 L].
-      - reflexivity.
-      - change (join CRLF ((l :: l2 :: L) ++ [x; y])) with (l ++ CRLF ++ join CRLF ((l2 :: L) ++ [x; y])).
-        rewrite <- IH by discriminate.
-        change (join CRLF (l :: l2 :: L)) with (l ++ CRLF ++ join CRLF (l2 :: L)).
-        rewrite <- !app_assoc. reflexivity. }
-    change (CRLF ++ CRLF ++ t) with (CRLF ++ [] ++ CRLF ++ t). rewrite HL by discriminate.
-    change ((request_line e1 :: map hline (sort_items (hdr_items (e_hdrs e1)))) ++ [[]; t])
-      with (request_line e1 :: map hline (sort_items (hdr_items (e_hdrs e1))) ++ [[]; t]).
-    rewrite (parse_serialised true conv e1 _ t W) by (right; reflexivity).
-    cbv zeta. unfold content_length at 1. cbn [e_hdrs]. rewrite Hcl.
-    unfold settled in Hset. destruct (dict_get k_CL (e_hdrs e1)) as [v|] eqn:Ev; [|discriminate].
-    subst v. rewrite parse_dec_len.
-    assert (Hread : read_body (Some (Z.of_nat (length body))) t = (t, [])).
-    { unfold read_body. destruct (Z.ltb_spec (Z.of_nat (length body)) 0); [lia|]. cbn [orb].
-      destruct (Z.leb_spec (Z.of_nat (length t)) (Z.of_nat (length body))); [reflexivity|lia]. }
-    rewrite Hread, Hc. reflexivity.
+  assert (HL : forall (L : list str) x y, L <> [] -> join CRLF L ++ CRLF ++ x ++ CRLF ++ y = join CRLF (L ++ [x; y])).
+  { clear. induction L as [|l L IH]; intros x y HL; [contradiction|].
+    destruct L as [|l2 L].
+    - reflexivity.
+    - change (join CRLF ((l :: l2 :: L) ++ [x; y])) with (l ++ CRLF ++ join CRLF ((l2 :: L) ++ [x; y])).
+      rewrite <- IH by discriminate.
+      change (join CRLF (l :: l2 :: L)) with (l ++ CRLF ++ join CRLF (l2 :: L)).
+      rewrite <- !app_assoc. reflexivity. }
+  change (CRLF ++ CRLF ++ t ++ extra) with (CRLF ++ [] ++ CRLF ++ (t ++ extra)). rewrite HL by discriminate.
+  change ((request_line e1 :: map hline (sort_items (hdr_items (e_hdrs e1)))) ++ [[]; t ++ extra])
+    with (request_line e1 :: map hline (sort_items (hdr_items (e_hdrs e1))) ++ [[]; t ++ extra]).
+  rewrite (parse_serialised true conv cw e1 _ (t ++ extra) W) by (right; reflexivity).
+  cbv zeta. unfold content_length at 1. cbn [e_hdrs]. rewrite Hcl.
+  unfold settled in Hset. destruct (dict_get k_CL (e_hdrs e1)) as [v|] eqn:Ev; [|contradiction].
+  subst v. rewrite parse_dec_len, <- Hlen, read_body_width by assumption. rewrite Hc. reflexivity.
+Qed.
+
+(* ... and a request without a body, as a text file *)
+Theorem request_text_roundtrip_nobody : forall conv cw e1,
+  wf_request e1 -> settled e1 [] -> conv [] = Ok [] ->
+  req_from_file true conv cw (request_head e1) = Ok (reparsed e1 [], []).
+Proof.
+  intros conv cw e1 W Hset Hc.
+  destruct (reparsed_clen e1 W) as [Hcl _]. unfold request_head.
+  rewrite <- (app_nil_r (map hline (sort_items (hdr_items (e_hdrs e1))))).
+  rewrite (parse_serialised true conv cw e1 [] [] W) by (left; split; reflexivity).
+  cbv zeta. unfold content_length at 1. cbn [e_hdrs]. rewrite Hcl.
+  unfold settled in Hset. destruct (dict_get k_CL (e_hdrs e1)) as [v|] eqn:Ev.
+  - subst v. rewrite parse_dec_len. cbn. rewrite Hc. reflexivity.
+  - cbn. rewrite Hc. reflexivity.
 Qed.
 
 (* as_bytes(skip_body=True) is the serialisation without its body part, and changes nothing *)
